@@ -535,6 +535,12 @@ def proc_main(a):
         k = m.make_kernel([Q])
         y = call_kernel(k, dict(REQUESTS[model]))
         out.append((model, dtype, np.array(y).tobytes(), m.dllpath))
+        if a.data.get("release_reload"):
+            # drop the library handle and load the cached file again
+            m.release()
+            k = m.make_kernel([Q])
+            y = call_kernel(k, dict(REQUESTS[model]))
+            out.append((model, dtype, np.array(y).tobytes(), m.dllpath))
     return out
 
 
@@ -599,6 +605,7 @@ def run_one(cfg, decisions=None, keep_events=False):
             a.data["loads"] = [tuple(x) for x in spec["loads"]]
             if spec.get("forked_from"):
                 a.data["forked_from"] = spec["forked_from"]
+            a.data["release_reload"] = bool(spec.get("release_reload"))
             procs.append(a)
         sched.run()
         phase1_reason = sched.stop_reason
@@ -744,7 +751,8 @@ def gen_config(run_seed, tier):
             start = c.randint(0, 40)
         else:
             start = c.randint(0, 2 * solo_max)
-        actors.append({"name": "P%d" % i, "loads": loads, "start_at": start})
+        actors.append({"name": "P%d" % i, "loads": loads, "start_at": start,
+                       "release_reload": w.random() < 0.2})
     if n >= 3 and c.random() < 0.15:
         # a parent that builds some other model first and then forks its workers
         # (multiprocessing with the fork start method): the children inherit the
